@@ -121,7 +121,16 @@ class ExcFlow:
     def handler_classes(self, fi: FuncInfo, h: ast.ExceptHandler) -> List[str]:
         if h.type is None:
             return ["BaseException"]
-        elts = h.type.elts if isinstance(h.type, ast.Tuple) else [h.type]
+        ht = h.type
+        if isinstance(ht, ast.Name):
+            # `except _FAILURES:` with a module-level tuple of exception classes
+            for st in fi.module.tree.body:
+                v = st.value if isinstance(st, (ast.Assign, ast.AnnAssign)) else None
+                tg = (st.targets[0] if isinstance(st, ast.Assign) and len(st.targets) == 1 else getattr(st, "target", None)) if v is not None else None
+                if isinstance(tg, ast.Name) and tg.id == ht.id and isinstance(v, ast.Tuple):
+                    ht = v
+                    break
+        elts = ht.elts if isinstance(ht, ast.Tuple) else [ht]
         return [self.exc_class_name(fi, e) or "ext:?" for e in elts]
 
     def caught_by(self, fi: FuncInfo, si: StmtInfo, cls: str) -> Optional[ast.ExceptHandler]:
